@@ -83,7 +83,7 @@ Section L.
       match l with
       | [] => Some (CDone GNormal w)
       | (_, b) :: r => match exec_list n b w with
-                       | Some (CDone GFallthrough w') => exec_from n r w'
+                       | Some (CDone GFallthrough w') => match r with [] => Some CStuck | _ => exec_from n r w' end
                        | Some (CDone GBreak w') => Some (CDone GNormal w')
                        | other => other
                        end
@@ -252,16 +252,16 @@ Section L.
     - intros l w. destruct l as [|[lab b] r]; [apply le_res_refl|].
       change (exec_from (S n) ((lab, b) :: r) w) with
         (match exec_list n b w with
-         | Some (CDone GFallthrough w') => exec_from n r w'
+         | Some (CDone GFallthrough w') => match r with [] => Some CStuck | _ => exec_from n r w' end
          | Some (CDone GBreak w') => Some (CDone GNormal w')
          | other => other end).
       change (exec_from (S (S n)) ((lab, b) :: r) w) with
         (match exec_list (S n) b w with
-         | Some (CDone GFallthrough w') => exec_from (S n) r w'
+         | Some (CDone GFallthrough w') => match r with [] => Some CStuck | _ => exec_from (S n) r w' end
          | Some (CDone GBreak w') => Some (CDone GNormal w')
          | other => other end).
       intros res H. destruct (exec_list n b w) as [c|] eqn:E; [|discriminate].
-      rewrite (IH2 b w c E). destruct c as [g w'| | | |]; auto. destruct g; auto. apply IH3. exact H.
+      rewrite (IH2 b w c E). destruct c as [g w'| | | |]; auto. destruct g; auto. destruct r; auto. apply IH3. exact H.
     - intros a l w. destruct l as [|[lab b] r].
       + change (exec_pick (S n) a [] w) with (match default_from a with Some d => exec_from n d w | None => Some (CDone GNormal w) end).
         change (exec_pick (S (S n)) a [] w) with (match default_from a with Some d => exec_from (S n) d w | None => Some (CDone GNormal w) end).
